@@ -146,6 +146,8 @@ def path_label(path):
 
 def replayer(bld):
     def rp(path, c):
+        if c.get('replay') == 'csr':
+            import c07, field_common; return c07.replayer(field_common.field_build())(path, c)
         if c.get('replay') != 'layout': return (True, str(c)[:200])
         n, nb, N, npart = c['n'], c['nb'], c['N'], c['np']
         fn = os.path.join(OUT, 'replay', 'c10-%d.h5' % os.getpid()); os.makedirs(os.path.dirname(fn), exist_ok=True)
@@ -219,7 +221,7 @@ def main(tier):
     jobs += [(preloop.job_preloop, ('C10',)), (preloop.job_rw_sets, ())]      # the first record of a run started from a results file: everything it stores was recomputed from the loaded grid
     # value clauses of the statement: stored moments are the moments of the stored profiles (C09), stored wake is the convolution (C06), intensity is the sum of the spectrum (C07)
     jobs += [(c09.job_moments, (6, 3, 2, ax, (-6, 6), (-6, 6))) for ax in (0, 1)] + [(c09.job_moments, (5, 2, 1, ax, (-5, 7), (-6.5, 5.5))) for ax in (0, 1)] + [(c09.job_normalize, (4, 3, 2))]
-    jobs += [(c06.job_structure, c) for c in ((4, 12, 5, (1, 0)), (4, 9, 5, (0, 1)), (4, 11, 5, (1,)))] + [(c07.job_spectrum, (4, 12, 5, (1, 0), 0))]      # bucket lists with the last bunch in bucket 0, with the first bunch in bucket 0, with one bunch in another bucket
+    jobs += [(c06.job_structure, c) for c in ((4, 12, 5, (1, 0)), (4, 9, 5, (0, 1)), (4, 11, 5, (1,)))] + [(c07.job_spectrum, (4, 12, 5, (1, 0), 0))] + [(c07.job_stored_intensity, c) for c in ((4, 8, 0, (0,)), (4, 12, 5, (1, 0)))]      # bucket lists with the last bunch in bucket 0, with the first bunch in bucket 0, with one bunch in another bucket
     chk.bounds = {'configurations (n, bunches, padded length N, particles)': cfgs, 'symbolic': 'contents of both axes, frequency ruler, impedance, charge/current/unit factors, t_sync, f_rev, every source array of every append',
                   'records': 'first and second record of each dataset (offset = current record count, taken from the object)'}
     chk.assumptions = ['libhdf5_cpp is a correct store: what is passed to DataSet::write / Attribute::write with a hyperslab is what the file holds (recorder model; chunking, compression, soft-link resolution not modelled)',
